@@ -54,7 +54,7 @@ BulkBases ==
        [name |-> "file-logical", kind |-> "FileMetaData", bytes |-> Enc("FileMetaData", LogicalFile, 0, <<>>)],
        [name |-> "file-16", kind |-> "FileMetaData", bytes |-> Enc("FileMetaData", BigFile(16, 15), 2, RealPlan)],
        [name |-> "file-mix", kind |-> "FileMetaData", bytes |-> Enc("FileMetaData", MkFile(RandP(3)), 21, MixPlan(7, FileKinds))] >>
-BulkSel == IF Quick THEN 1..7 ELSE 1..Len(BulkBases)
+BulkSel == IF Quick THEN 1..6 ELSE 1..Len(BulkBases)
 
 \* ---- nesting bombs, huge sizes, random bytes
 BombReps == << <<25>>, <<26>>, <<28>>, <<27>>, <<27, 27, 27>>, <<25, 28>>, <<251, 255, 255, 255, 15>> >>
